@@ -77,6 +77,10 @@ func (conn *tncConn) Write(p []byte) (int, error) {
 	conn.dataLock.Lock()
 	defer conn.dataLock.Unlock()
 
+	if len(p) == 0 {
+		return 0, nil // Nothing to send (a data frame's byte count is 0001-FFFF)
+	}
+
 	// TODO: Consider implementing chunking
 	if len(p) > 65535 { // uint16 (length bytes) max
 		p = p[:65535]
